@@ -9,7 +9,8 @@
    very same function, see alias_every_depth). *)
 From Coq Require Import List NArith ZArith Bool.
 From Dials Require Import Base.Outcome Base.Runes Reflect.Ty Transform.RType Transform.MAlias
-  Transform.Manglers Transform.Transformer Transform.TransformerProofs Transform.AliasProofs.
+  Transform.Manglers Transform.Transformer Transform.TransformerProofs Transform.AliasProofs
+  Transform.WellFormed Transform.CounterpartSpec Transform.SpecProofs Transform.AliasSpecProofs.
 Import ListNotations.
 
 (* an aliased field becomes exactly two fields of the same type: itself and the copy *)
@@ -94,6 +95,43 @@ Proof. intros subrev tags ia o x f e pv H. unfold rec_unmangle_one. rewrite H. r
 Theorem alias_never_panics : forall sfo fvs, is_panic (alias_unmangle sfo fvs) = false.
 Proof. exact alias_unmangle_no_panic. Qed.
 
+(* SOURCE LEVEL (std flag and pflag sources: chain [alias; flatten]).  What
+   ReverseTranslate returns for the translated value the source filled from the
+   flags that were given IS the by-name specification ... *)
+Theorem alias_chain_is_spec : forall fuel E tags tag te fs nm tt x filled,
+  wf_fields fs = true -> simple_fields fs = true -> alias_ok_fields tags fs = true ->
+  translate fuel [MAlias tags; MFlatten tag 0%N te] (TStruct fs nm) = Ok (tt, x) ->
+  length filled = length (unpack_ty tt) ->
+  Some (reverse fuel E [MAlias tags; MFlatten tag 0%N te] x (tt, VStruct filled)) =
+  counterpart_spec E [MAlias tags; MFlatten tag 0%N te] (TStruct fs nm) tt filled.
+Proof. exact alias_flatten_chain_spec_l. Qed.
+
+(* ... and in the specification an aliased leaf field, at ANY depth (names is
+   the path of enclosing field names), is computed from exactly the two
+   translated fields named by its primary and its alias-copy path: *)
+Theorem alias_value_reaches_field : forall E env tags names n tg t r,
+  wf_ty t = true -> leaf_ok t = true -> under_is_struct t = false -> exported n = true ->
+  has_alias tags tg = true ->
+  bound env (enc0 (names ++ [n])) -> bound env (enc0 (names ++ [n ++ alias_field_suffix])) ->
+  fspec_fields E (Shape tags (Some 0%N) false false false) env 0%N names (FCons n tg false t r) =
+  (x <- pick n t (valof env (enc0 (names ++ [n]))) (valof env (enc0 (names ++ [n ++ alias_field_suffix]))) ;;
+   rest <- fspec_fields E (Shape tags (Some 0%N) false false false) env 0%N names r ;;
+   Ok (x :: rest)).
+Proof. exact spec_aliased_leaf. Qed.
+
+(* ... where the value under the primary name alone is the field's value, the
+   value under the alias name alone is the field's value, neither leaves it
+   unset, and both is the error naming the field *)
+Theorem alias_pick_cases : forall n t p a, wf_ty t = true ->
+  (is_vnil p = false -> is_vnil a = true -> pick n t p a = Ok p) /\
+  (is_vnil p = true -> is_vnil a = false -> pick n t p a = Ok a) /\
+  (is_vnil p = true -> is_vnil a = true -> pick n t p a = Ok VNil) /\
+  (is_vnil p = false -> is_vnil a = false -> pick n t p a = Err (alias_both_code n)).
+Proof. exact pick_cases. Qed.
+
+Print Assumptions alias_chain_is_spec.
+Print Assumptions alias_value_reaches_field.
+Print Assumptions alias_pick_cases.
 Print Assumptions alias_doubles_the_field.
 Print Assumptions alias_either_sets.
 Print Assumptions alias_neither_unset.
